@@ -12,7 +12,11 @@ from sklearn.utils import check_random_state
 
 from deephyper.core.utils.joblib_utils import Parallel, delayed
 
-from ..acquisition import _gaussian_acquisition, gaussian_acquisition_1D
+from ..acquisition import (
+    _gaussian_acquisition,
+    _predict_epistemic_std,
+    gaussian_acquisition_1D,
+)
 from ..learning import GaussianProcessRegressor
 from ..moo import MoScalarFunction, moo_functions
 from ..space import Categorical, Space
@@ -674,9 +678,7 @@ class Optimizer(object):
             Xsample_transformed = self.space.transform(Xsample)
 
             if strategy[-1] == "d":
-                mu, _, std = self.models[-1].predict(
-                    Xsample_transformed, return_std=True, disentangled_std=True
-                )
+                mu, std = _predict_epistemic_std(self.models[-1], Xsample_transformed)
             else:
                 mu, std = self.models[-1].predict(Xsample_transformed, return_std=True)
 
